@@ -5,8 +5,11 @@
 (* (MC_Extract_naive.cfg must FAIL).                                          *)
 EXTENDS Extract, TLC
 CONSTANTS Design, MaxEntries
-Paths == { <<"a">>, <<"b">>, <<"a", "b">>, <<"..", "out", "victim">>, <<"a", "..", "..", "out", "x">> }
-Targets == { [abs |-> FALSE, comps |-> <<"..", "out">>], [abs |-> TRUE, comps |-> <<"out">>], [abs |-> FALSE, comps |-> <<"b">>] }
+\* <<".", "a">> is a second spelling of a (entries are paired with metadata by name, so a link and a file
+\* at one location need two spellings); the last target is a dangling link to a file outside
+Paths == { <<"a">>, <<".", "a">>, <<"b">>, <<"a", "b">>, <<"..", "out", "victim">>, <<"a", "..", "..", "out", "x">> }
+Targets == { [abs |-> FALSE, comps |-> <<"..", "out">>], [abs |-> TRUE, comps |-> <<"out">>], [abs |-> FALSE, comps |-> <<"b">>],
+             [abs |-> FALSE, comps |-> <<"..", "out", "new">>], [abs |-> TRUE, comps |-> <<"out", "new2">>] }
 Entries == { [comps |-> p, kind |-> "file", data |-> "new", target |-> [abs |-> FALSE, comps |-> <<>>]] : p \in Paths }
            \cup { [comps |-> p, kind |-> "dir", data |-> "", target |-> [abs |-> FALSE, comps |-> <<>>]] : p \in Paths }
            \cup { [comps |-> p, kind |-> "link", data |-> "", target |-> t] : p \in {<<"a">>, <<"b">>}, t \in Targets }
